@@ -450,6 +450,12 @@ theorem needs_validRow :
     parseCsv (encRows lf [[(false, "\"a".toList), (false, "b".toList)]]) = .ok [["a,b\n".toList]] ∧
     parseCsv (encRows lf [[(false, [])]]) = .ok [[]] := by decide
 
+/-- the line terminator matters: with any other separator of records the text is one record -/
+theorem needs_lineTerminator :
+    (∀ r ∈ [[(false, "a".toList)], [(false, "b".toList)]], ValidRow r) ∧
+    parseCsv (encRows [';'] [[(false, "a".toList)], [(false, "b".toList)]]) = .ok [["a;b;".toList]] := by
+  decide
+
 /-- **the other dialects of `csv.writer`** the reader has to understand (the harness and other
 tools write them): LF line ends and/or QUOTE_ALL.  With QUOTE_MINIMAL and LF line ends CPython 3.12
 does NOT quote a field for a CR, so the round trip needs CR-free cells there. -/
@@ -762,6 +768,13 @@ example :
     let w : Workbook := [⟨"s1".toList, ["a".toList, "b".toList], [["1\r\n2".toList, [] ], [[], "\"".toList]]⟩,
                          ⟨"s 2".toList, ["x".toList], [[[]]]⟩]
     (w.map Sheet.name).Nodup ∧ ∀ s ∈ w, Rect s ∧ s.headers.Nodup ∧ s.rows ≠ [] := by decide
+
+/-- the distinct-names hypothesis is forced in the model (a reader's sheets are the values of a dict,
+so it always holds on the real side): two sheets of the same name come back as one, with the
+content of the second -/
+theorem json_file_needs_distinct_names :
+    loadJsonText (toJsonText [⟨"s".toList, ["a".toList], [["1".toList]]⟩, ⟨"s".toList, ["a".toList], [["2".toList]]⟩])
+      = .ok [⟨"s".toList, ["a".toList], [["2".toList]]⟩] := by decide +kernel
 
 /-- texts `to_json` never writes but `JSONSheetReader` must read alike (compact separators, other
 whitespace, other member order, `meta` absent), and what it refuses; a header-only sheet comes back
